@@ -8,6 +8,10 @@ try:
     from props import NOT_APPLICABLE
 except ImportError:
     NOT_APPLICABLE = {}
+LEVEL_WHY = {
+    'exploration': '. Exploration is the honest level: the property quantifies over an unbounded space of inputs / histories / schedules, which generated search samples densely and measurably (class histogram, distinct non-trivial cases and samples in the evidence file) but cannot exhaust; a green run is evidence, not proof.',
+    'fault_enumeration': '. Fault enumeration is the right level: for each generated base input the fault space (truncation points, writer-failure offsets, field corruptions) is enumerated, exhaustively up to the stated length, while the base inputs themselves are sampled; nothing is claimed beyond the catalogue and the sampled bases.',
+}
 allids = [json.loads(l)['id'] for l in open(os.path.join(ROOT, 'properties.jsonl'))]
 hooks = subprocess.run(['git', '-C', '/repo', 'log', '--format=%H %s'], capture_output=True, text=True).stdout.splitlines()
 hook_commits = [l.split()[0] for l in hooks if l.split(' ', 1)[1].startswith('verif hook')]
@@ -39,7 +43,7 @@ for pid in sorted(PROPS):
         'evidence_file': 'evidence/%s.json' % pid,
         'replay_cmd_template': './check %s --replay {path}' % pid,
         'engine': 'rapid',
-        'level_claimed': {'category': c['level'], 'text': c['level_text'], 'design_ref': 'DESIGN.md §6 ' + pid},
+        'level_claimed': {'category': c['level'], 'text': c['level_text'] + LEVEL_WHY[c['level']], 'design_ref': 'DESIGN.md §6 ' + pid},
         'level_note': c['level_note'],
         'technique': c['technique'],
     })
